@@ -49,6 +49,9 @@ var extNilOnlyWithErr = map[string]map[int]int{
 // external: result i nil only when bool result j is false
 var extNilOnlyWithNotOk = map[string]map[int]int{
 	"(*analysis.Spec).OperationFor": {0: 1},
+	"(*big.Rat).SetString":          {0: 1}, // (nil, false) for a text that is no number
+	"(*big.Int).SetString":          {0: 1},
+	"(*big.Float).SetString":        {0: 1},
 }
 
 // external functions whose listed result may be nil (read from the pinned dependency versions)
@@ -57,6 +60,9 @@ var extMayReturnNil = map[string]map[int]bool{
 	"spec.ResolveRef":               {0: true},
 	"spec.ResolveRefWithBase":       {0: true},
 	"(*analysis.Spec).OperationFor": {0: true}, // nil when not found (second result false)
+	"(*big.Rat).SetString":          {0: true}, // nil when the text is no number (second result false)
+	"(*big.Int).SetString":          {0: true},
+	"(*big.Float).SetString":        {0: true},
 	"reflect.TypeOf":                {0: true}, // refined: nil iff argument nil
 	"reflect.Value.Interface":       {0: true}, // element may hold nil
 	"(*sync.Pool).Get":              {0: false},
